@@ -10,6 +10,7 @@ using namespace Fastor; using namespace vp::vw;
 using c05::apply; using c05::OPN; using c05::fill_parent;
 
 template <class T> inline void cmp_all(Ctx& c, const T* got, const T* model, size_t n, const std::string& what) {
+    c.digest_add(got, n);
     for (size_t i = 0; i < n; ++i) {
         ++c.compared;
         if (same_val(got[i], model[i])) continue;
